@@ -299,4 +299,19 @@ theorem stackAt_append {β : Type} (below entries : List β) (i : Nat) (hi : i <
   rw [hlen, List.getElem?_append_right (by omega)]
   congr 1; omega
 
+theorem mem_activeOf (v : Vars) (ps : List Nat) (p : Nat) :
+    p ∈ activeOf v ps ↔ p ∈ ps ∧ (v.remap.lookup p).isSome = true := by
+  unfold activeOf; simp [List.mem_filter]
+
+theorem lookup_mem (m : List (Nat × Nat)) (p i : Nat) (h : m.lookup p = some i) : (p, i) ∈ m := by
+  induction m with
+  | nil => cases h
+  | cons e m ih =>
+    obtain ⟨a, b⟩ := e
+    by_cases hpa : p = a
+    · subst hpa; simp [List.lookup] at h; subst h; exact List.mem_cons_self ..
+    · have : (p == a) = false := by simpa using hpa
+      simp [List.lookup, this] at h
+      exact List.mem_cons_of_mem _ (ih h)
+
 end TmVerif.ActionRefs
